@@ -202,4 +202,88 @@ theorem charsetName_append (l ext n : List Nat) (h : charsetName l = some n) :
       exact h
   · simp at h
 
+theorem detect_stable (p ext : List Nat) (b : Bool) (r : Enc × Bool)
+    (h : detect p false = some r) : detect (p ++ ext) b = some r := by
+  unfold detect at *
+  cases hc : core p false with
+  | dflt => simp [hc] at h
+  | ans e x =>
+    have := core_stable ext p b (by rw [hc]; simp)
+    simp only [hc] at h
+    simp only [this, hc]; exact h
+  | scan =>
+    have := core_stable ext p b (by rw [hc]; simp)
+    simp only [hc] at h
+    simp only [this, hc]
+    cases hn : charsetName p with
+    | none => simp [hn] at h
+    | some n =>
+      simp only [hn] at h
+      simp only [charsetName_append p ext n hn]; exact h
+
+theorem fix_stable (p ext enc r : List Nat) (b : Bool)
+    (h : fixEncoding p enc false = some r) : fixEncoding (p ++ ext) enc b = some (r ++ ext) := by
+  unfold fixEncoding at *
+  by_cases hl : p.length > 10
+  · have hl' : (p ++ ext).length > 10 := by simp; omega
+    have hpre : prefix10.isPrefixOf (p ++ ext) = prefix10.isPrefixOf p := by
+      have hlen : prefix10.length ≤ p.length := by simp [prefix10]; omega
+      cases hp : prefix10.isPrefixOf p with
+      | true =>
+        rw [List.isPrefixOf_iff_prefix] at hp
+        exact List.isPrefixOf_iff_prefix.mpr (hp.trans (List.prefix_append p ext))
+      | false =>
+        cases hq : prefix10.isPrefixOf (p ++ ext) with
+        | false => rfl
+        | true =>
+          rw [List.isPrefixOf_iff_prefix] at hq
+          have := List.prefix_of_prefix_length_le hq (List.prefix_append p ext) hlen
+          rw [← List.isPrefixOf_iff_prefix] at this
+          rw [this] at hp; cases hp
+    rw [if_pos hl] at h
+    rw [if_pos hl', hpre]
+    by_cases hp : prefix10.isPrefixOf p = true
+    · rw [if_pos hp] at h ⊢
+      have d10 : (p ++ ext).drop 10 = p.drop 10 ++ ext := by
+        rw [List.drop_append_of_le_length (by omega)]
+      cases hq : findQuote (p.drop 10) with
+      | none => simp [hq] at h
+      | some k =>
+        have hk := findQuote_lt _ _ hq
+        simp only [hq, Option.some.injEq] at h
+        simp only [d10, findQuote_append _ ext k hq]
+        rw [List.drop_append_of_le_length (by omega), ← h]
+        simp
+    · rw [if_neg hp] at h ⊢
+      simp only [Option.some.injEq] at h; subst h; rfl
+  · rw [if_neg hl] at h
+    have hnp : isPrefixOf10 p = false := by
+      cases hx : isPrefixOf10 p with
+      | false => rfl
+      | true => simp [hx] at h
+    simp only [hnp, Bool.not_false, Bool.true_or, if_true, Option.some.injEq] at h
+    subst h
+    have hnp' : isPrefixOf10 (p ++ ext) = false := by
+      cases hx : isPrefixOf10 (p ++ ext) with
+      | false => rfl
+      | true =>
+        unfold isPrefixOf10 at *
+        rw [List.isPrefixOf_iff_prefix] at hx
+        have := (List.prefix_append p ext).trans hx
+        rw [← List.isPrefixOf_iff_prefix] at this
+        rw [this] at hnp; cases hnp
+    by_cases hl' : (p ++ ext).length > 10
+    · rw [if_pos hl']
+      have : ¬ (prefix10.isPrefixOf (p ++ ext) = true) := by
+        intro hq
+        rw [List.isPrefixOf_iff_prefix] at hq
+        have hlen : p.length ≤ prefix10.length := by simp [prefix10]; omega
+        have := List.prefix_of_prefix_length_le (List.prefix_append p ext) hq hlen
+        unfold isPrefixOf10 at hnp
+        rw [← List.isPrefixOf_iff_prefix] at this
+        rw [this] at hnp; cases hnp
+      rw [if_neg this]
+    · rw [if_neg hl']
+      simp [hnp']
+
 end CssVerif.Codec
